@@ -83,6 +83,7 @@ pub fn run_case(ctx: &Ctx, case: &Case, counting: bool) -> PResult {
 	let mut w = World::new(&cb.genesis, true);
 	let mut head = 0usize;
 	let mut tags_seen: BTreeSet<String> = BTreeSet::new();
+	let mut nrd_index_from_header_fork = false;
 	// prefix up to height 8 so that the generated part starts where NRD kernels become legal
 	let mut ops: Vec<Op> = (0..8).map(|_| Op::Block(plain_block())).collect();
 	ops.extend(case.ops.iter().cloned());
@@ -90,6 +91,15 @@ pub fn run_case(ctx: &Ctx, case: &Case, counting: bool) -> PResult {
 		match op {
 			Op::Reopen => {
 				let nrd = !w.nodes[head].model.nrd.is_empty();
+				// recorded finding (NRD index rebuilt along the header chain's fork): when the restart does
+				// not fail outright, the index it rebuilt carries the other fork's heights from here on
+				if nrd {
+					if let (Ok(h), Ok(hh)) = (cb.c().head(), cb.c().header_head()) {
+						if h.last_block_h != hh.last_block_h {
+							nrd_index_from_header_fork = true;
+						}
+					}
+				}
 				if let Err(f) = cb.reopen_classified(nrd) {
 					if ctx.known_hit(&f.sig) {
 						return Ok(()); // listed finding: the node cannot restart, the case ends here
@@ -135,6 +145,13 @@ pub fn run_case(ctx: &Ctx, case: &Case, counting: bool) -> PResult {
 							tags_seen.insert(full);
 						}
 					}
+					(Ok(_), Err(e)) if nrd_index_from_header_fork && err_name(e).contains("NRD") => {
+						let sig = "nrd-rule-misapplied-after-restart:nrd-index-rebuilt-along-header-chain-fork";
+						if ctx.known_hit(sig) {
+							return Ok(());
+						}
+						fail!(sig, "op {}: block valid under the NRD rule of its branch rejected ({}) after a restart that rebuilt the NRD kernel index while header head and body head were on different forks", i, err_name(e));
+					}
 					(Ok(_), Err(e)) => {
 						fail!(
 							format!("valid-block-rejected:{}", built.tags.first().cloned().unwrap_or_default()),
@@ -145,6 +162,13 @@ pub fn run_case(ctx: &Ctx, case: &Case, counting: bool) -> PResult {
 							ctx_tag,
 							err_name(e)
 						);
+					}
+					(Err(ModelReject::Nrd(why)), Ok(_)) if nrd_index_from_header_fork => {
+						let sig = "nrd-rule-not-enforced-after-restart:nrd-index-rebuilt-along-header-chain-fork";
+						if ctx.known_hit(sig) {
+							return Ok(());
+						}
+						fail!(sig, "op {}: block violating the NRD relative lock ({}) accepted (h={}) after a restart that rebuilt the NRD kernel index while header head and body head were on different forks", i, why, built.block.header.height);
 					}
 					(Err(why), Ok(_)) => {
 						fail!(
